@@ -816,6 +816,23 @@ Section Cells.
       intuition (try discriminate; auto).
   Qed.
 
+  (* the cells generated by FILL copy the container's importance: they pass the
+     conversion filter iff the container (a level-0 cell) has non-zero importance *)
+  Theorem generated_converted_iff (cells : list (Z * cell (T:=T))) leaf key g :
+    In (leaf, key, g) (generated cells) ->
+    exists c, In (key, c) cells /\ c_u c = 0%Z /\
+              (converted Sc g = true <-> is_zero c = false).
+  Proof.
+    unfold generated. intros H. apply in_flat_map in H. destruct H as ([k c] & Hin & H).
+    cbn [fst snd] in H. destruct (c_fill c) eqn:Ef; try destruct H.
+    destruct (c_u c =? 0)%Z eqn:Eu; [|destruct H]. apply Z.eqb_eq in Eu.
+    apply in_flat_map in H. destruct H as (l & _ & H).
+    destruct (dict_get Z.eqb l cells) as [lc|]; [|destruct H]. destruct H as [H|[]].
+    injection H as <- <- <-. exists c. split; [exact Hin|]. split; [exact Eu|].
+    unfold converted, fill_copy, is_zero. cbn [c_imp c_u c_fill]. rewrite Eu.
+    destruct (c_imp c) as [v|]; [destruct (seqb Sc v (s0 Sc))|]; cbn; intuition congruence.
+  Qed.
+
   (* a cell in no universe and without FILL is either skipped or converted,
      never both, never neither *)
   Theorem level0_partition imp_cards cards lats cells skipped key c :
